@@ -18,15 +18,15 @@
 -/
 namespace Influx.Values
 
-abbrev TS := Int
-abbrev Pt (V : Type) := TS × V
+abbrev TS := Int  -- documentation only; signatures below say `Int` so that `omega` sees through
+abbrev Pt (V : Type) := Int × V
 
 variable {V : Type}
 
 /-! ### search / FindRange -/
 
 /-- `search`: the loop `for lo < hi { mid := int(uint(lo+hi) >> 1); if a[mid] < v { lo = mid+1 } else { hi = mid } }`. -/
-def searchLoop (a : List (Pt V)) (v : TS) (lo hi : Nat) (h : hi ≤ a.length) : Nat :=
+def searchLoop (a : List (Pt V)) (v : Int) (lo hi : Nat) (h : hi ≤ a.length) : Nat :=
   if hlt : lo < hi then
     let mid := (lo + hi) / 2
     if (a[mid]'(by omega)).1 < v then searchLoop a v (mid + 1) hi h
@@ -35,10 +35,10 @@ def searchLoop (a : List (Pt V)) (v : TS) (lo hi : Nat) (h : hi ≤ a.length) : 
 termination_by hi - lo
 
 /-- `(a Values) search(v)` / `(a *Array) search(v)`. -/
-def search (a : List (Pt V)) (v : TS) : Nat := searchLoop a v 0 a.length (Nat.le_refl _)
+def search (a : List (Pt V)) (v : Int) : Nat := searchLoop a v 0 a.length (Nat.le_refl _)
 
 /-- `FindRange(min, max)`; `none` is Go's `(-1, -1)`. -/
-def findRange (a : List (Pt V)) (mn mx : TS) : Option (Nat × Nat) :=
+def findRange (a : List (Pt V)) (mn mx : Int) : Option (Nat × Nat) :=
   match a.head?, a.getLast? with
   | some f, some l =>
     if mn > mx then none
@@ -47,11 +47,11 @@ def findRange (a : List (Pt V)) (mn mx : TS) : Option (Nat × Nat) :=
   | _, _ => none
 
 /-- `if rmax < len(a) && a[rmax].UnixNano() == max { rmax++ }` -/
-def bumpMax (a : List (Pt V)) (mx : TS) (rmax : Nat) : Nat :=
+def bumpMax (a : List (Pt V)) (mx : Int) (rmax : Nat) : Nat :=
   if h : rmax < a.length then (if a[rmax].1 = mx then rmax + 1 else rmax) else rmax
 
 /-- `Exclude(min, max)`: `none` = slice bounds panic (unsorted input only). -/
-def exclude (a : List (Pt V)) (mn mx : TS) : Option (List (Pt V)) :=
+def exclude (a : List (Pt V)) (mn mx : Int) : Option (List (Pt V)) :=
   match findRange a mn mx with
   | none => some a
   | some (rmin, rmax) =>
@@ -65,7 +65,7 @@ def exclude (a : List (Pt V)) (mn mx : TS) : Option (List (Pt V)) :=
     else some (a.take rmin)
 
 /-- `Include(min, max)`: `none` = slice bounds panic (unsorted input only). -/
-def «include» (a : List (Pt V)) (mn mx : TS) : Option (List (Pt V)) :=
+def «include» (a : List (Pt V)) (mn mx : Int) : Option (List (Pt V)) :=
   match findRange a mn mx with
   | none => some []
   | some (rmin, rmax) =>
